@@ -143,9 +143,12 @@ class SimHost:
         self.trace = hashlib.sha256()
         self.trace_lines = [] if swarm.get("keep_trace") else None
         self.op_index = -1
+        self.generation = 0  # bumped on every restart: objects of an older generation must not be reused
         self.stats = {"ops": {}, "outcomes": {}, "faults_fired": {}, "faults_not_fired": {}, "fs_events": 0,
                       "restarts": {}, "crash_phases": {}, "probes": {}}
         self.home_cwd = os.getcwd()
+        self._root_b = self.root.encode()
+        self.logdir = tempfile.mkdtemp(prefix="simhost-log-", dir=parent)  # the tool's own log: outside the digest
         self.log_line({"seed": seed, "swarm": {k: swarm[k] for k in sorted(swarm)}})
 
     # -- trace ---------------------------------------------------------------------
@@ -169,10 +172,19 @@ class SimHost:
     def write(self, rel: str, data: bytes | str):
         p = self.path(rel)
         os.makedirs(os.path.dirname(p), exist_ok=True)
-        mode = "w" if isinstance(data, str) else "wb"
-        with REAL_OPEN(p, mode) as fh:
+        if isinstance(data, str):
+            data = data.encode("utf-8")
+        with REAL_OPEN(p, "wb") as fh:
             fh.write(data)
+        # files that mention the scratch root (whose name is random) keep their content out of the run digest
+        if self._root_b in data:
+            self.disk.opaque.add(rel)
+        else:
+            self.disk.opaque.discard(rel)
         return p
+
+    def _norm_hash(self, data: bytes) -> str:
+        return hashlib.sha256(data.replace(self._root_b, b"<ROOT>")).hexdigest()
 
     def read(self, rel: str) -> bytes | None:
         try:
@@ -194,20 +206,21 @@ class SimHost:
         out = {}
         if os.path.isfile(base):
             with REAL_OPEN(base, "rb") as fh:
-                out[rel] = hashlib.sha256(fh.read()).hexdigest()
+                out[rel] = self._norm_hash(fh.read())
             return out
         for dp, dn, fn in os.walk(base):
             dn.sort()
             for f in sorted(fn):
                 p = os.path.join(dp, f)
                 with REAL_OPEN(p, "rb") as fh:
-                    out[os.path.relpath(p, self.root)] = hashlib.sha256(fh.read()).hexdigest()
+                    out[os.path.relpath(p, self.root)] = self._norm_hash(fh.read())
             if not fn and not dn:
                 out[os.path.relpath(dp, self.root) + "/"] = "dir"
         return out
 
     # -- interpreter state ---------------------------------------------------------------
     def restart_soft(self):
+        self.generation += 1
         purge_tool_modules()
         self.stats["restarts"]["soft"] = self.stats["restarts"].get("soft", 0) + 1
         # a fresh interpreter seeds `random` from the kernel; here from the simulated stream
@@ -301,8 +314,12 @@ class SimHost:
             return None
 
         if full_main:
-            argv = ["--log-filename", self.path("suit-generator.log")] + argv
-        return self.tool(run, kind=kind or argv[0], faults=faults, timeout=timeout, argv=argv)
+            argv = ["--log-filename", os.path.join(self.logdir, "suit-generator.log")] + argv
+        try:
+            return self.tool(run, kind=kind or argv[0], faults=faults, timeout=timeout, argv=argv)
+        finally:
+            if full_main:
+                _reset_logging()
 
     def disk_digest_line(self):
         self.log_line({"disk": self.tree()})
@@ -313,6 +330,22 @@ class SimHost:
         except OSError:
             pass
         shutil.rmtree(self.root, ignore_errors=True)
+        shutil.rmtree(self.logdir, ignore_errors=True)
+
+
+def _reset_logging():
+    import logging
+
+    root = logging.getLogger()
+    for h in list(root.handlers):
+        root.removeHandler(h)
+        try:
+            h.close()
+        except Exception:  # noqa: BLE001
+            pass
+    root.setLevel(logging.WARNING)
+    root.addHandler(logging.NullHandler())
+    logging.lastResort = None
 
 
 def _json_default(o):
